@@ -52,6 +52,9 @@ pub(crate) struct RecvHandlerConfig {
     pub local_node_id: enr::NodeId,
     pub protocol_identity: ProtocolIdentity,
     pub expected_responses: Arc<RwLock<HashMap<SocketAddr, usize>>>,
+    /// Virtual network: datagrams from the harness instead of the UDP sockets.
+    #[cfg(feature = "verif-hooks")]
+    pub verif_rx: Option<mpsc::UnboundedReceiver<crate::verif::net::Inbound>>,
 }
 
 /// The main task that handles inbound UDP packets.
@@ -74,6 +77,9 @@ pub(crate) struct RecvHandler {
     handler: mpsc::Sender<RecvPacket>,
     /// Exit channel to shutdown the recv handler.
     exit: oneshot::Receiver<()>,
+    /// Virtual network: datagrams from the harness instead of the UDP sockets.
+    #[cfg(feature = "verif-hooks")]
+    verif_rx: Option<mpsc::UnboundedReceiver<crate::verif::net::Inbound>>,
 }
 
 impl RecvHandler {
@@ -91,6 +97,8 @@ impl RecvHandler {
             local_node_id,
             protocol_identity,
             expected_responses,
+            #[cfg(feature = "verif-hooks")]
+            verif_rx,
         } = config;
 
         let filter_enabled = filter_config.enabled;
@@ -107,6 +115,8 @@ impl RecvHandler {
             protocol_identity,
             handler,
             exit,
+            #[cfg(feature = "verif-hooks")]
+            verif_rx,
         };
 
         // start the handler
@@ -119,6 +129,10 @@ impl RecvHandler {
 
     /// The main future driving the recv handler. This will shutdown when the exit future is fired.
     async fn start(&mut self, filter_enabled: bool) {
+        #[cfg(feature = "verif-hooks")]
+        if self.verif_rx.is_some() {
+            return self.verif_start(filter_enabled).await;
+        }
         // Interval to prune to rate limiter.
         let mut interval = tokio::time::interval(Duration::from_secs(30));
         let mut first_buffer = [0; MAX_PACKET_SIZE];
@@ -137,6 +151,32 @@ impl RecvHandler {
                 Some(Ok((length, src))) = Into::<OptionFuture<_>>::into(self.second_recv.as_ref().map(|second_recv|second_recv.recv_from(&mut second_buffer))), if check_second_recv => {
                     METRICS.add_recv_bytes(length);
                     self.handle_inbound(src, length, &second_buffer).await;
+                }
+                _ = interval.tick(), if filter_enabled => {
+                    self.filter.prune_limiter();
+                },
+                _ = &mut self.exit => {
+                    debug!("Recv handler shutdown");
+                    return;
+                }
+            }
+        }
+    }
+
+    /// Virtual-network variant of [`RecvHandler::start`]: datagrams arrive from the harness. A
+    /// datagram longer than the receive buffer is truncated, as `recv_from` would.
+    #[cfg(feature = "verif-hooks")]
+    async fn verif_start(&mut self, filter_enabled: bool) {
+        let mut rx = self.verif_rx.take().expect("virtual receiver");
+        let mut interval = tokio::time::interval(Duration::from_secs(30));
+        let mut buffer = [0; MAX_PACKET_SIZE];
+        loop {
+            tokio::select! {
+                Some((src, bytes)) = rx.recv() => {
+                    let length = bytes.len().min(MAX_PACKET_SIZE);
+                    buffer[..length].copy_from_slice(&bytes[..length]);
+                    METRICS.add_recv_bytes(length);
+                    self.handle_inbound(src, length, &buffer).await;
                 }
                 _ = interval.tick(), if filter_enabled => {
                     self.filter.prune_limiter();
